@@ -83,8 +83,7 @@ TotalNodes(ss) == NodeOffset(ss, Len(ss)) + NNodes(ss[Len(ss)])
 \* position in the flat vector of component c of mesh node (i,j) of surface k   (get_src_indices)
 SrcIdx(ss, k, i, j, c) == 3 * (NodeOffset(ss, k) + i * ss[k].ny + j) + c
 \* Demux: surface array element (k,i,j,c) := flat[SrcIdx];  Mux: flat[SrcIdx] := surface array element
-MuxDomain(ss) == {<<k, i, j, c>> : k \in 1..Len(ss), i \in 0..MaxNx - 1, j \in 0..MaxNy - 1, c \in 0..2}
-MuxElems(ss) == {e \in MuxDomain(ss) : e[2] < ss[e[1]].nx /\ e[3] < ss[e[1]].ny}
+MuxElems(ss) == UNION {{<<k, i, j, c>> : i \in 0..ss[k].nx - 1, j \in 0..ss[k].ny - 1, c \in 0..2} : k \in 1..Len(ss)}
 MuxBijective(ss) ==                                           \* exact inverse permutations
       /\ \A e \in MuxElems(ss) : SrcIdx(ss, e[1], e[2], e[3], e[4]) \in 0 .. 3 * TotalNodes(ss) - 1
       /\ \A e1, e2 \in MuxElems(ss) : SrcIdx(ss, e1[1], e1[2], e1[3], e1[4]) = SrcIdx(ss, e2[1], e2[2], e2[3], e2[4]) => e1 = e2
